@@ -72,7 +72,8 @@ theorem faceCount_append_aux (a b : List (Line τ α)) : faceCount (a ++ b) = fa
 
 /-- closing the open range of a working group in state `CurOK` gives a `GroupOK` group -/
 theorem close_ok_aux {s : RState τ α} (h : CurOK s) :
-    GroupOK { s.cur with mats := if s.since > 0 ∧ s.cur.mats ≠ [] then setLast s.cur.mats s.since else s.cur.mats } := by
+    GroupOK { s.cur with mats := closeMats s.cur.mats s.since } := by
+  unfold closeMats
   obtain ⟨hl, h⟩ := h
   refine ⟨hl, ?_⟩
   rcases h with ⟨h0, _, _⟩ | ⟨init, m, hm, hs⟩
@@ -159,18 +160,18 @@ theorem step_inv_aux {s s' : RState τ α} {l : Line τ α} (hi : Inv s) (h : st
             simp only [ht, hm, List.length_append, List.length_singleton]
             rcases hc with ⟨h0, hs, hie⟩ | ⟨init, m, hmm, hs⟩
             · cases hin : s.inEffect with
-              | none => left; simp [h0, hs]
+              | none => left; simp [carryMats, h0, hs]
               | some m =>
                 right
                 have : s.cur.tris = [] := by
                   by_cases ht0 : s.cur.tris = []
                   · exact ht0
                   · have := hie ht0; rw [hin] at this; cases this
-                refine ⟨[], m, by simp [h0], ?_⟩
+                refine ⟨[], m, by simp [carryMats, h0], ?_⟩
                 simp [matSum, hs, this]
             · right
               have hne : s.cur.mats ≠ [] := by rw [hmm]; simp
-              exact ⟨init, m, by simp [hne, hmm], by omega⟩
+              exact ⟨init, m, by simp [carryMats, hmm], by omega⟩
           · simp [isFace, faceTotal, ht]; omega
 
 theorem steps_inv_aux : ∀ (ls : List (Line τ α)) {s s' : RState τ α}, Inv s → steps pc s ls = .ok s' →
@@ -231,13 +232,17 @@ def tIdx (t : τ) : Option Nat := match pc t with | .ok c => slot c.vt | .error 
 /-- the tables of a group, relative to pools `pv pn pt`:
     * `verts` is the token table resolved through the `v` pool;
     * `normals` / `uvs` are the tokens that have a `vn` / `vt` slot, resolved through those pools;
-    * the three local indices of the k-th triangle point at the three tokens of the k-th face line. -/
-structure GInv (pv pn : List (V3 α)) (pt : List (V2 α)) (g : Group τ α) : Prop where
+    * the three local indices of the k-th triangle point at the three tokens of the k-th face line;
+    * every token of the table occurs in some face line of the group. -/
+structure GData (pv pn : List (V3 α)) (pt : List (V2 α)) (g : Group τ α) : Prop where
   hv : g.verts.map some = g.toks.map (vOf pc pv)
   hn : g.normals.map some = (g.toks.filterMap (nIdx pc)).map (pn[·]?)
   ht : g.uvs.map some = (g.toks.filterMap (tIdx pc)).map (pt[·]?)
   hf : g.tris.map (fun t => (g.toks[t.1]?, g.toks[t.2.1]?, g.toks[t.2.2]?)) =
        g.ftoks.map (fun f => (some f.1, some f.2.1, some f.2.2))
+
+structure GInv (pv pn : List (V3 α)) (pt : List (V2 α)) (g : Group τ α) : Prop extends GData pc pv pn pt g where
+  hm : ∀ t ∈ g.toks, ∃ f ∈ g.ftoks, t = f.1 ∨ t = f.2.1 ∨ t = f.2.2
 
 theorem map_some_mono_aux {β γ : Type} (f f' : γ → Option β) (hff : ∀ t x, f t = some x → f' t = some x) :
     ∀ (l : List β) (ts : List γ), l.map some = ts.map f → l.map some = ts.map f'
@@ -285,7 +290,7 @@ theorem tris_res_mono_aux (toks ext : List τ) (tris : List (Nat × Nat × Nat))
 
 theorem GInv_mono_aux {pv pn : List (V3 α)} {pt : List (V2 α)} {g : Group τ α} (h : GInv pc pv pn pt g)
     (a b : List (V3 α)) (c : List (V2 α)) : GInv pc (pv ++ a) (pn ++ b) (pt ++ c) g := by
-  refine ⟨?_, ?_, ?_, h.hf⟩
+  refine ⟨⟨?_, ?_, ?_, h.hf⟩, h.hm⟩
   · refine map_some_mono_aux _ _ ?_ _ _ h.hv
     intro t x hx
     unfold vOf at hx ⊢
@@ -304,13 +309,13 @@ theorem filterMap_concat_aux {β γ : Type} (f : β → Option γ) (l : List β)
 
 /-- one corner: the tables stay consistent, the returned index points at the token, tokens only get appended -/
 theorem addCorner_spec_aux {s : RState τ α} {g g' : Group τ α} {t : τ} {p : Nat}
-    (h : addCorner pc s g t = .ok (p, g')) (hi : GInv pc s.pv s.pn s.pt g) :
-    GInv pc s.pv s.pn s.pt g' ∧ g'.toks[p]? = some t ∧ ∃ ext, g'.toks = g.toks ++ ext := by
+    (h : addCorner pc s g t = .ok (p, g')) (hi : GData pc s.pv s.pn s.pt g) :
+    GData pc s.pv s.pn s.pt g' ∧ g'.toks[p]? = some t ∧ ∃ ext, g'.toks = g.toks ++ ext ∧ (ext = [] ∨ ext = [t]) := by
   unfold addCorner at h
   split at h
   · rename_i hmem
     cases h
-    exact ⟨hi, idxOf_getElem?_aux _ _ hmem, [], by simp⟩
+    exact ⟨hi, idxOf_getElem?_aux _ _ hmem, [], by simp, Or.inl rfl⟩
   · split at h
     · cases h
     · rename_i c hc
@@ -327,7 +332,7 @@ theorem addCorner_spec_aux {s : RState τ α} {g g' : Group τ α} {t : τ} {p :
             · cases h
             · rename_i uvs huv
               cases h
-              refine ⟨⟨?_, ?_, ?_, ?_⟩, by simp, [t], rfl⟩
+              refine ⟨⟨?_, ?_, ?_, ?_⟩, by simp, [t], rfl, Or.inr rfl⟩
               · have : vOf pc s.pv t = some pos := by simp [vOf, hc, hv0, hpos]
                 simp [hi.hv, this]
               · simp only [filterMap_concat_aux, nIdx, hc]
@@ -363,7 +368,7 @@ def poolT : List (Line τ α) → List (V2 α)
   | _ :: ls => poolT ls
 
 theorem GInv_empty_aux (pv pn : List (V3 α)) (pt : List (V2 α)) (name : String) :
-    GInv pc pv pn pt ({ name := name } : Group τ α) := ⟨rfl, rfl, rfl, rfl⟩
+    GInv pc pv pn pt ({ name := name } : Group τ α) := ⟨⟨rfl, rfl, rfl, rfl⟩, by intro t ht; cases ht⟩
 
 theorem step_allG_aux {s s' : RState τ α} {l : Line τ α} (hi : AllG pc s) (h : step pc s l = .ok s') :
     AllG pc s' ∧ s'.pv = s.pv ++ poolV [l] ∧ s'.pn = s.pn ++ poolN [l] ∧ s'.pt = s.pt ++ poolT [l] := by
@@ -396,7 +401,7 @@ theorem step_allG_aux {s s' : RState τ α} {l : Line τ α} (hi : AllG pc s) (h
     split at h
     · cases h
     · cases h
-      exact ⟨⟨hd, ⟨hc.hv, hc.hn, hc.ht, hc.hf⟩⟩, by simp [poolV, poolN, poolT]⟩
+      exact ⟨⟨hd, ⟨⟨hc.hv, hc.hn, hc.ht, hc.hf⟩, hc.hm⟩⟩, by simp [poolV, poolN, poolT]⟩
   | g name =>
     simp only [step] at h
     split at h
@@ -405,9 +410,9 @@ theorem step_allG_aux {s s' : RState τ α} {l : Line τ α} (hi : AllG pc s) (h
       intro g hg
       rcases List.mem_append.1 hg with hg | hg
       · exact hd g hg
-      · simp only [List.mem_singleton] at hg; subst hg; exact ⟨hc.hv, hc.hn, hc.ht, hc.hf⟩
+      · simp only [List.mem_singleton] at hg; subst hg; exact ⟨⟨hc.hv, hc.hn, hc.ht, hc.hf⟩, hc.hm⟩
     · cases h
-      exact ⟨⟨hd, ⟨hc.hv, hc.hn, hc.ht, hc.hf⟩⟩, by simp [poolV, poolN, poolT]⟩
+      exact ⟨⟨hd, ⟨⟨hc.hv, hc.hn, hc.ht, hc.hf⟩, hc.hm⟩⟩, by simp [poolV, poolN, poolT]⟩
   | f a b c =>
     simp only [step] at h
     split at h
@@ -420,14 +425,39 @@ theorem step_allG_aux {s s' : RState τ α} {l : Line τ α} (hi : AllG pc s) (h
         · cases h
         · rename_i p3 g3 e3
           cases h
-          obtain ⟨i1, q1, x1, hx1⟩ := addCorner_spec_aux pc e1 ⟨hc.hv, hc.hn, hc.ht, hc.hf⟩
-          obtain ⟨i2, q2, x2, hx2⟩ := addCorner_spec_aux pc e2 i1
-          obtain ⟨i3, q3, x3, hx3⟩ := addCorner_spec_aux pc e3 i2
-          refine ⟨⟨hd, ⟨i3.hv, i3.hn, i3.ht, ?_⟩⟩, by simp [poolV, poolN, poolT]⟩
-          have r1 : g3.toks[p1]? = some a := by
-            rw [hx3, hx2]; exact getElem?_append_some_aux (getElem?_append_some_aux q1 x2) x3
-          have r2 : g3.toks[p2]? = some b := by rw [hx3]; exact getElem?_append_some_aux q2 x3
-          simp [i3.hf, r1, r2, q3]
+          obtain ⟨i1, q1, x1, hx1, y1⟩ := addCorner_spec_aux pc e1 ⟨hc.hv, hc.hn, hc.ht, hc.hf⟩
+          obtain ⟨i2, q2, x2, hx2, y2⟩ := addCorner_spec_aux pc e2 i1
+          obtain ⟨i3, q3, x3, hx3, y3⟩ := addCorner_spec_aux pc e3 i2
+          obtain ⟨_, f1, _, _⟩ := addCorner_frame_aux pc e1
+          obtain ⟨_, f2, _, _⟩ := addCorner_frame_aux pc e2
+          obtain ⟨_, f3, _, _⟩ := addCorner_frame_aux pc e3
+          refine ⟨⟨hd, ⟨⟨i3.hv, i3.hn, i3.ht, ?_⟩, ?_⟩⟩, by simp [poolV, poolN, poolT]⟩
+          · have r1 : g3.toks[p1]? = some a := by
+              rw [hx3, hx2]; exact getElem?_append_some_aux (getElem?_append_some_aux q1 x2) x3
+            have r2 : g3.toks[p2]? = some b := by rw [hx3]; exact getElem?_append_some_aux q2 x3
+            simp [i3.hf, r1, r2, q3]
+          · intro t ht
+            simp only at ht hx1
+            rw [hx3, hx2, hx1] at ht
+            have hft : g3.ftoks = s.cur.ftoks := by rw [f3, f2, f1]
+            simp only [hft, List.mem_append, List.mem_singleton]
+            rcases List.mem_append.1 ht with ht | ht
+            · rcases List.mem_append.1 ht with ht | ht
+              · rcases List.mem_append.1 ht with ht | ht
+                · obtain ⟨f, hf, hh⟩ := hc.hm t ht
+                  exact ⟨f, Or.inl hf, hh⟩
+                · refine ⟨(a, b, c), Or.inr rfl, Or.inl ?_⟩
+                  rcases y1 with rfl | rfl
+                  · cases ht
+                  · simpa using ht
+              · refine ⟨(a, b, c), Or.inr rfl, Or.inr (Or.inl ?_)⟩
+                rcases y2 with rfl | rfl
+                · cases ht
+                · simpa using ht
+            · refine ⟨(a, b, c), Or.inr rfl, Or.inr (Or.inr ?_)⟩
+              rcases y3 with rfl | rfl
+              · cases ht
+              · simpa using ht
 
 theorem pool_append_aux (l : Line τ α) (ls : List (Line τ α)) :
     poolV (l :: ls) = poolV [l] ++ poolV ls ∧ poolN (l :: ls) = poolN [l] ++ poolN ls ∧
@@ -470,7 +500,7 @@ theorem readObj_corners {ls : List (Line τ α)} {gs : List (Group τ α)} {libs
     intro g hg
     rcases List.mem_append.1 hg with hg | hg
     · exact hd g hg
-    · simp only [List.mem_singleton] at hg; subst hg; exact ⟨hc.hv, hc.hn, hc.ht, hc.hf⟩
+    · simp only [List.mem_singleton] at hg; subst hg; exact ⟨⟨hc.hv, hc.hn, hc.ht, hc.hf⟩, hc.hm⟩
 
 end content
 
@@ -605,6 +635,487 @@ theorem obj_resave_faces [DecidableEq τ] (pc : τ → Except Err Corner) {ls : 
   omega
 
 end resave
+
+/-! ### the reader on what the writer emits -/
+
+section roundtrip
+variable {α : Type}
+
+/-- corner tokens are the corners themselves -/
+abbrev pcId : Corner → Except Err Corner := fun c => .ok c
+
+/-- a corner all of whose slots point into the pools -/
+def Res (pv pn : List (V3 α)) (pt : List (V2 α)) (c : Corner) : Prop :=
+  c.v ≠ 0 ∧ (∃ p, pv[c.v - 1]? = some p) ∧ (∀ i, slot c.vn = some i → ∃ n, pn[i]? = some n) ∧
+  (∀ i, slot c.vt = some i → ∃ u, pt[i]? = some u)
+
+theorem addCorner_ok_aux (s : RState Corner α) (g : Group Corner α) (c : Corner) (h : Res s.pv s.pn s.pt c) :
+    ∃ p g', addCorner pcId s g c = .ok (p, g') := by
+  obtain ⟨hv, ⟨p, hp⟩, hn, ht⟩ := h
+  unfold addCorner
+  by_cases hm : c ∈ g.toks
+  · exact ⟨g.toks.idxOf c, g, by simp [hm]⟩
+  · simp only [hm, ↓reduceIte, hv, hp]
+    cases hsn : slot c.vn with
+    | none =>
+      cases hst : slot c.vt with
+      | none => exact ⟨_, _, rfl⟩
+      | some j => obtain ⟨u, hu⟩ := ht j hst; simp only [hu, Option.map_some]; exact ⟨_, _, rfl⟩
+    | some i =>
+      obtain ⟨n, hn'⟩ := hn i hsn
+      cases hst : slot c.vt with
+      | none => simp only [hn', Option.map_some]; exact ⟨_, _, rfl⟩
+      | some j => obtain ⟨u, hu⟩ := ht j hst; simp only [hn', hu, Option.map_some]; exact ⟨_, _, rfl⟩
+
+/-- one face line whose corners resolve: the step succeeds and only touches `since` and the working group -/
+theorem step_face_aux (s : RState Corner α) (a b c : Corner)
+    (ha : Res s.pv s.pn s.pt a) (hb : Res s.pv s.pn s.pt b) (hc : Res s.pv s.pn s.pt c) :
+    ∃ g', step pcId s (.f a b c) = .ok { s with since := s.since + 1, cur := g' } ∧ g'.name = s.cur.name ∧
+      g'.ftoks = s.cur.ftoks ++ [(a, b, c)] ∧ g'.tris.length = s.cur.tris.length + 1 ∧
+      g'.mats = carryMats s.cur.mats s.inEffect := by
+  obtain ⟨p1, g1, e1⟩ := addCorner_ok_aux s { s.cur with mats := carryMats s.cur.mats s.inEffect } a ha
+  obtain ⟨p2, g2, e2⟩ := addCorner_ok_aux s g1 b hb
+  obtain ⟨p3, g3, e3⟩ := addCorner_ok_aux s g2 c hc
+  obtain ⟨t1, f1, m1, n1⟩ := addCorner_frame_aux pcId e1
+  obtain ⟨t2, f2, m2, n2⟩ := addCorner_frame_aux pcId e2
+  obtain ⟨t3, f3, m3, n3⟩ := addCorner_frame_aux pcId e3
+  simp only at t1 f1 m1 n1
+  refine ⟨{ g3 with tris := g3.tris ++ [(p1, p2, p3)], ftoks := g3.ftoks ++ [(a, b, c)] }, ?_, ?_, ?_, ?_, ?_⟩
+  · simp only [step, e1, e2, e3]
+  · simp [n3, n2, n1]
+  · simp [f3, f2, f1]
+  · simp [t3, t2, t1]
+  · simp [m3, m2, m1]
+
+theorem carryMats_idem_aux (mats : List (String × Nat)) (ie : Option String) :
+    carryMats (carryMats mats ie) ie = carryMats mats ie := by
+  unfold carryMats
+  by_cases h : mats = []
+  · cases ie <;> simp [h]
+  · simp [h]
+
+/-- the face lines of index triples `ts` through corner maker `mk` -/
+def cornerTriples (mk : Nat → Corner) (ts : List (Nat × Nat × Nat)) : List (Corner × Corner × Corner) :=
+  ts.map fun t => (mk t.1, mk t.2.1, mk t.2.2)
+
+/-- a run of face lines, all corners resolvable -/
+theorem steps_faces_aux (mk : Nat → Corner) : ∀ (ts : List (Nat × Nat × Nat)) (s : RState Corner α),
+    (∀ t ∈ ts, Res s.pv s.pn s.pt (mk t.1) ∧ Res s.pv s.pn s.pt (mk t.2.1) ∧ Res s.pv s.pn s.pt (mk t.2.2)) →
+    ∃ g', steps pcId s (faceLines mk ts) = .ok { s with since := s.since + ts.length, cur := g' } ∧
+      g'.name = s.cur.name ∧ g'.ftoks = s.cur.ftoks ++ cornerTriples mk ts ∧
+      g'.tris.length = s.cur.tris.length + ts.length ∧
+      g'.mats = (if ts = [] then s.cur.mats else carryMats s.cur.mats s.inEffect)
+  | [], s, _ => ⟨s.cur, by simp [faceLines, steps], rfl, by simp [cornerTriples], rfl, by simp⟩
+  | t :: ts, s, h => by
+    obtain ⟨ha, hb, hc⟩ := h t (by simp)
+    obtain ⟨g1, e1, n1, f1, t1, m1⟩ := step_face_aux s (mk t.1) (mk t.2.1) (mk t.2.2) ha hb hc
+    obtain ⟨g2, e2, n2, f2, t2, m2⟩ := steps_faces_aux mk ts { s with since := s.since + 1, cur := g1 }
+      (fun t' ht' => h t' (by simp [ht']))
+    refine ⟨g2, ?_, ?_, ?_, ?_, ?_⟩
+    · simp only [faceLines, List.map_cons, steps, e1]
+      simp only [faceLines] at e2
+      rw [e2]
+      simp only [List.length_cons]
+      congr 2
+      omega
+    · simp [n2, n1]
+    · simp [f2, f1, cornerTriples]
+    · simp [t2, t1]; omega
+    · simp only [m2, m1, reduceCtorEq, ↓reduceIte]
+      by_cases hts : ts = []
+      · simp [hts]
+      · simp [hts, carryMats_idem_aux]
+
+theorem steps_append_aux {τ : Type} [DecidableEq τ] (pc : τ → Except Err Corner) :
+    ∀ (a b : List (Line τ α)) (s s1 : RState τ α), steps pc s a = .ok s1 → steps pc s (a ++ b) = steps pc s1 b
+  | [], b, s, s1, h => by simp only [steps, Except.ok.injEq] at h; subst h; rfl
+  | l :: a, b, s, s1, h => by
+    simp only [steps, List.cons_append] at h ⊢
+    split at h
+    · cases h
+    · rename_i s' e
+      first | simp only [e] | skip
+      exact steps_append_aux pc a b s' s1 h
+
+/-- what `rangeRun` emits for ranges that partition the triangles -/
+def rangeLines (mk : Nat → Corner) : List (Option String × Nat) → List (Nat × Nat × Nat) → List (Line Corner α)
+  | [], _ => []
+  | (m, n) :: ms, ts => .usemtl (matName m) :: (faceLines mk (ts.take n) ++ rangeLines mk ms (ts.drop n))
+
+theorem rangeRun_eq_aux (mk : Nat → Corner) : ∀ (mats : List (Option String × Nat)) (ts : List (Nat × Nat × Nat)),
+    (mats.map (·.2)).sum = ts.length →
+    rangeRun (α := α) mk mats (flatTris ts) = .ok (rangeLines mk mats ts)
+  | [], ts, _ => rfl
+  | (m, n) :: ms, ts, h => by
+    simp only [List.map_cons, List.sum_cons] at h
+    have hn : (ts.take n).length = n := by simp [List.length_take]; omega
+    have hsplit : flatTris ts = flatTris (ts.take n) ++ flatTris (ts.drop n) := by
+      rw [← flatTris_append_aux, List.take_append_drop]
+    have hrun := faceRun_flat_aux (α := α) mk (ts.take n) (flatTris (ts.drop n))
+    rw [hn] at hrun
+    have hr := rangeRun_eq_aux mk ms (ts.drop n) (by simp [List.length_drop]; omega)
+    simp [rangeRun, rangeLines, hsplit, hrun, hr]
+
+/-- the material in effect after a mesh's lines: its last `usemtl`, else what was in effect before -/
+def lastMat (mats : List (Option String × Nat)) (d : Option String) : Option String :=
+  match mats.getLast? with
+  | some p => some (matName p.1)
+  | none => d
+
+theorem closeMats_concat_aux (X : List (String × Nat)) (m : String) (n : Nat) :
+    closeMats (X ++ [(m, 0)]) n = X ++ [(m, n)] := by
+  unfold closeMats
+  by_cases h : n > 0
+  · simp [h, setLast_concat_aux]
+  · have : n = 0 := by omega
+    simp [this]
+
+/-- the ranges of a mesh, read into a working group that has no pending "Default" range: afterwards the
+    closed ranges are the previously closed ones followed by the mesh's ranges -/
+theorem steps_ranges_aux (mk : Nat → Corner) : ∀ (mats : List (Option String × Nat)) (ts : List (Nat × Nat × Nat))
+    (s : RState Corner α),
+    (s.cur.mats = [] → s.since = 0) → (mats.map (·.2)).sum = ts.length → (∀ p ∈ mats, matName p.1 ≠ "") →
+    (∀ t ∈ ts, Res s.pv s.pn s.pt (mk t.1) ∧ Res s.pv s.pn s.pt (mk t.2.1) ∧ Res s.pv s.pn s.pt (mk t.2.2)) →
+    ∃ g' c', steps pcId s (rangeLines mk mats ts) =
+        .ok { s with since := c', inEffect := lastMat mats s.inEffect, cur := g' } ∧
+      g'.name = s.cur.name ∧ g'.ftoks = s.cur.ftoks ++ cornerTriples mk ts ∧
+      g'.tris.length = s.cur.tris.length + ts.length ∧
+      (g'.mats = [] → c' = 0) ∧
+      closeMats g'.mats c' = closeMats s.cur.mats s.since ++ mats.map (fun p => (matName p.1, p.2))
+  | [], ts, s, hdef, hsum, _, _ => by
+    have : ts = [] := List.eq_nil_of_length_eq_zero (by simpa using hsum.symm)
+    subst this
+    exact ⟨s.cur, s.since, rfl, rfl, by simp [cornerTriples], rfl, hdef, by simp⟩
+  | (m1, n) :: ms, ts, s, hdef, hsum, hnames, hres => by
+    simp only [List.map_cons, List.sum_cons] at hsum
+    have hn : (ts.take n).length = n := by simp [List.length_take]; omega
+    have hname : matName m1 ≠ "" := hnames (m1, n) (by simp)
+    -- usemtl
+    have hmats1 : (if s.since > 0 then (if s.cur.mats = [] then [("Default", s.since)] else setLast s.cur.mats s.since)
+        else s.cur.mats) = closeMats s.cur.mats s.since := by
+      unfold closeMats
+      by_cases hp : s.since > 0
+      · have hne : s.cur.mats ≠ [] := fun h => by have := hdef h; omega
+        simp [hp, hne]
+      · simp [hp]
+    let g1 : Group Corner α := { s.cur with mats := closeMats s.cur.mats s.since ++ [(matName m1, 0)] }
+    let s1 : RState Corner α := { s with since := 0, inEffect := some (matName m1), cur := g1 }
+    have e1 : step pcId s (.usemtl (matName m1)) = .ok s1 := by
+      simp only [step, hname, ↓reduceIte, hmats1, s1, g1]
+    -- its faces
+    obtain ⟨g2, e2, n2, f2, t2, m2⟩ := steps_faces_aux mk (ts.take n) s1
+      (fun t ht => hres t (List.mem_of_mem_take ht))
+    have hm2 : g2.mats = closeMats s.cur.mats s.since ++ [(matName m1, 0)] := by
+      rw [m2]; split
+      · rfl
+      · simp [carryMats, s1, g1]
+    -- the remaining ranges
+    obtain ⟨g3, c3, e3, n3, f3, t3, hd3, hc3⟩ := steps_ranges_aux mk ms (ts.drop n)
+      { s1 with since := s1.since + (ts.take n).length, cur := g2 }
+      (fun h => by rw [hm2] at h; simp at h)
+      (by simp [List.length_drop]; omega) (fun p hp => hnames p (by simp [hp]))
+      (fun t ht => hres t (List.mem_of_mem_drop ht))
+    refine ⟨g3, c3, ?_, ?_, ?_, ?_, hd3, ?_⟩
+    · simp only [rangeLines, steps, e1]
+      rw [steps_append_aux pcId _ _ _ _ e2, e3]
+      congr 2
+      unfold lastMat
+      cases hl : ms.getLast? with
+      | none =>
+        have : ms = [] := by simpa using hl
+        subst this; simp [s1]
+      | some p =>
+        have : ((m1, n) :: ms).getLast? = some p := by
+          cases ms with
+          | nil => simp at hl
+          | cons q qs => simpa [List.getLast?_cons_cons] using hl
+        simp [this]
+    · simp [n3, n2, s1, g1]
+    · simp only [f3, f2, s1, g1, cornerTriples, List.append_assoc, ← List.map_append, List.take_append_drop]
+    · simp only [t3, t2, s1, g1, List.length_drop]; omega
+    · rw [hc3]
+      simp only [hm2, s1, hn, Nat.zero_add, closeMats_concat_aux, List.map_cons, List.append_assoc, List.cons_append,
+        List.nil_append]
+
+/-! #### meshes the property speaks about -/
+
+/-- consecutive index triples -/
+def triplesOf : List Nat → List (Nat × Nat × Nat)
+  | a :: b :: c :: r => (a, b, c) :: triplesOf r
+  | _ => []
+
+theorem flat_triplesOf_aux : ∀ idx : List Nat, idx.length % 3 = 0 → flatTris (triplesOf idx) = idx
+  | [], _ => rfl
+  | [_], h => by simp at h
+  | [_, _], h => by simp at h
+  | _ :: _ :: _ :: r, h => by simp [triplesOf, flatTris, flat_triplesOf_aux r (by simp at h; omega)]
+
+theorem triplesOf_length_aux : ∀ idx : List Nat, (triplesOf idx).length = idx.length / 3
+  | [] => rfl
+  | [_] => by simp [triplesOf]
+  | [_, _] => by simp [triplesOf]
+  | _ :: _ :: _ :: r => by simp [triplesOf, triplesOf_length_aux r]; omega
+
+theorem triplesOf_mem_aux : ∀ (idx : List Nat) (t : Nat × Nat × Nat), t ∈ triplesOf idx →
+    t.1 ∈ idx ∧ t.2.1 ∈ idx ∧ t.2.2 ∈ idx
+  | [], _, h => by cases h
+  | [_], _, h => by simp [triplesOf] at h
+  | [_, _], _, h => by simp [triplesOf] at h
+  | a :: b :: c :: r, t, h => by
+    simp only [triplesOf, List.mem_cons] at h
+    rcases h with rfl | h
+    · simp
+    · obtain ⟨h1, h2, h3⟩ := triplesOf_mem_aux r t h
+      simp [h1, h2, h3]
+
+/-- a well-formed triangle mesh for the OBJ writer: whole triangles, positions present, every index in
+    range of every present attribute array, material ranges (if any) partition the triangles, material
+    names non-empty once blanks are removed -/
+structure WFMesh (m : Mesh α) : Prop where
+  len3 : m.idx.length % 3 = 0
+  pos : ∃ ps, m.pos = some ps ∧ ∀ i ∈ m.idx, i < ps.length
+  uv : ∀ us, m.uv = some us → ∀ i ∈ m.idx, i < us.length
+  nrm : ∀ ns, m.nrm = some ns → ∀ i ∈ m.idx, i < ns.length
+  mats : m.mats = [] ∨ (m.mats.map (·.2)).sum = m.idx.length / 3
+  names : ∀ p ∈ m.mats, matName p.1 ≠ ""
+
+example : WFMesh (⟨[0, 1, 2, 2, 1, 3], some [⟨0, 0, 0⟩, ⟨1, 0, 0⟩, ⟨0, 1, 0⟩, ⟨1, 1, 0⟩], none,
+    some [⟨0, 0, 1⟩, ⟨0, 0, 1⟩, ⟨0, 0, 1⟩, ⟨0, 0, 1⟩], [(some "red", 1), (none, 0), (some "blue", 1)]⟩ : Mesh Nat) :=
+  ⟨rfl, ⟨_, rfl, by decide⟩, (by intro us h; cases h), (by intro ns h; cases h; decide), Or.inr (by decide),
+    (by decide)⟩
+
+/-- the lines of a mesh after its optional `g` line -/
+def bodyLines (vo to no : Nat) (m : Mesh α) : List (Line Corner α) :=
+  if m.mats = [] then faceLines (mkCorner m.uv.isSome m.nrm.isSome vo to no) (triplesOf m.idx)
+  else rangeLines (mkCorner m.uv.isSome m.nrm.isSome vo to no) m.mats (triplesOf m.idx)
+
+def gLine (multi : Bool) (name : String) : List (Line Corner α) := if multi || name ≠ "" then [.g name] else []
+
+theorem writeGroup_eq_aux (multi : Bool) (vo to no : Nat) (name : String) (m : Mesh α) (h : WFMesh m) :
+    writeGroup multi vo to no name m = .ok (gLine multi name ++ bodyLines vo to no m) := by
+  have hidx := flat_triplesOf_aux m.idx h.len3
+  have hlen := triplesOf_length_aux m.idx
+  unfold writeGroup bodyLines gLine
+  by_cases hm : m.mats = []
+  · have h1 := faceRun_flat_aux (α := α) (mkCorner m.uv.isSome m.nrm.isSome vo to no) (triplesOf m.idx) []
+    rw [List.append_nil, hidx, hlen] at h1
+    have h2 : (m.idx.length + 2) / 3 = m.idx.length / 3 := by have := h.len3; omega
+    simp only [hm, ↓reduceIte, h2, h1, Except.map]
+  · have hs : (m.mats.map (·.2)).sum = (triplesOf m.idx).length := by
+      rcases h.mats with h' | h'
+      · exact absurd h' hm
+      · rw [hlen]; exact h'
+    have h1 := rangeRun_eq_aux (α := α) (mkCorner m.uv.isSome m.nrm.isSome vo to no) m.mats (triplesOf m.idx) hs
+    rw [hidx] at h1
+    simp only [hm, ↓reduceIte, h1]
+
+def groupLines (multi : Bool) : Nat → Nat → Nat → List (String × Mesh α) → List (Line Corner α)
+  | _, _, _, [] => []
+  | vo, to, no, (name, m) :: rest =>
+    gLine multi name ++ bodyLines vo to no m ++
+      groupLines multi (vo + optLen m.pos) (to + optLen m.uv) (no + optLen m.nrm) rest
+
+theorem writeGroups_eq_aux (multi : Bool) : ∀ (ms : List (String × Mesh α)) (vo to no : Nat),
+    (∀ p ∈ ms, WFMesh p.2) → writeGroups multi vo to no ms = .ok (groupLines multi vo to no ms)
+  | [], _, _, _, _ => rfl
+  | (name, m) :: rest, vo, to, no, h => by
+    simp only [writeGroups, writeGroup_eq_aux multi vo to no name m (h (name, m) (by simp)),
+      writeGroups_eq_aux multi rest _ _ _ (fun p hp => h p (by simp [hp])), groupLines]
+
+/-- the pools hold mesh `m`'s arrays at offsets `vo / to / no` -/
+def PoolsFor (pv pn : List (V3 α)) (pt : List (V2 α)) (vo to no : Nat) (m : Mesh α) : Prop :=
+  (∀ ps, m.pos = some ps → ∀ i, i < ps.length → pv[i + vo]? = ps[i]?) ∧
+  (∀ us, m.uv = some us → ∀ i, i < us.length → pt[i + to]? = us[i]?) ∧
+  (∀ ns, m.nrm = some ns → ∀ i, i < ns.length → pn[i + no]? = ns[i]?)
+
+theorem res_mk_aux {pv pn : List (V3 α)} {pt : List (V2 α)} {vo to no : Nat} {m : Mesh α}
+    (hp : PoolsFor pv pn pt vo to no m) (hw : WFMesh m) {i : Nat} (hi : i ∈ m.idx) :
+    Res pv pn pt (mkCorner m.uv.isSome m.nrm.isSome vo to no i) := by
+  obtain ⟨ps, hps, hlt⟩ := hw.pos
+  refine ⟨by simp [mkCorner], ?_, ?_, ?_⟩
+  · refine ⟨ps[i]'(hlt i hi), ?_⟩
+    have : (mkCorner m.uv.isSome m.nrm.isSome vo to no i).v - 1 = i + vo := by simp [mkCorner]
+    rw [this, hp.1 ps hps i (hlt i hi)]
+    exact List.getElem?_eq_getElem (hlt i hi)
+  · intro j hj
+    cases hn : m.nrm with
+    | none => simp [mkCorner, hn, slot] at hj
+    | some ns =>
+      have hlt' := hw.nrm ns hn i hi
+      have : j = i + no := by
+        simp [mkCorner, hn, slot] at hj; omega
+      subst this
+      exact ⟨ns[i], by rw [hp.2.2 ns hn i hlt']; exact List.getElem?_eq_getElem hlt'⟩
+  · intro j hj
+    cases hu : m.uv with
+    | none => simp [mkCorner, hu, slot] at hj
+    | some us =>
+      have hlt' := hw.uv us hu i hi
+      have : j = i + to := by
+        simp [mkCorner, hu, slot] at hj; omega
+      subst this
+      exact ⟨us[i], by rw [hp.2.1 us hu i hlt']; exact List.getElem?_eq_getElem hlt'⟩
+
+/-- the closed material ranges the reader ends up with for mesh `m`, `carry` being the material in
+    effect before it (cf. `Obj.expectMats`) -/
+def expMats (carry : Option String) (m : Mesh α) : List (String × Nat) :=
+  if m.mats = [] then
+    (match carry with
+     | some a => if m.idx.length / 3 = 0 then [] else [(a, m.idx.length / 3)]
+     | none => [])
+  else m.mats.map fun p => (matName p.1, p.2)
+
+def Fresh (s : RState Corner α) : Prop :=
+  s.cur.mats = [] ∧ s.since = 0 ∧ s.cur.tris = [] ∧ s.cur.ftoks = []
+
+/-- the body of one mesh, read into a fresh working group -/
+theorem steps_body_aux (s : RState Corner α) (vo to no : Nat) (m : Mesh α) (hw : WFMesh m)
+    (hp : PoolsFor s.pv s.pn s.pt vo to no m) (hf : Fresh s) :
+    ∃ g' c', steps pcId s (bodyLines vo to no m) =
+        .ok { s with since := c', inEffect := lastMat m.mats s.inEffect, cur := g' } ∧
+      g'.name = s.cur.name ∧
+      g'.ftoks = cornerTriples (mkCorner m.uv.isSome m.nrm.isSome vo to no) (triplesOf m.idx) ∧
+      g'.tris.length = m.idx.length / 3 ∧
+      closeMats g'.mats c' = expMats s.inEffect m := by
+  obtain ⟨hm0, hs0, ht0, hf0⟩ := hf
+  have hres : ∀ t ∈ triplesOf m.idx,
+      Res s.pv s.pn s.pt (mkCorner m.uv.isSome m.nrm.isSome vo to no t.1) ∧
+      Res s.pv s.pn s.pt (mkCorner m.uv.isSome m.nrm.isSome vo to no t.2.1) ∧
+      Res s.pv s.pn s.pt (mkCorner m.uv.isSome m.nrm.isSome vo to no t.2.2) := by
+    intro t ht
+    obtain ⟨h1, h2, h3⟩ := triplesOf_mem_aux m.idx t ht
+    exact ⟨res_mk_aux hp hw h1, res_mk_aux hp hw h2, res_mk_aux hp hw h3⟩
+  have hlen := triplesOf_length_aux m.idx
+  unfold bodyLines
+  by_cases hm : m.mats = []
+  · obtain ⟨g', e, n, f, t, mm⟩ := steps_faces_aux (mkCorner m.uv.isSome m.nrm.isSome vo to no) (triplesOf m.idx) s hres
+    refine ⟨g', s.since + (triplesOf m.idx).length, ?_, n, by simp [f, hf0], by simp [t, ht0, hlen], ?_⟩
+    · simp only [hm, ↓reduceIte, e, lastMat, List.getLast?_nil]
+    · rw [mm, hs0, hlen, hm0]
+      unfold expMats closeMats carryMats
+      simp only [hm, ↓reduceIte, Nat.zero_add]
+      by_cases h0 : m.idx.length / 3 = 0
+      · have : triplesOf m.idx = [] := List.eq_nil_of_length_eq_zero (by rw [hlen]; exact h0)
+        cases s.inEffect <;> simp [this, h0]
+      · have : triplesOf m.idx ≠ [] := fun h => h0 (by rw [← hlen, h]; rfl)
+        cases s.inEffect with
+        | none => simp [this]
+        | some a =>
+          have hp0 : m.idx.length / 3 > 0 := by omega
+          simp [this, h0, hp0, setLast]
+  · have hs : (m.mats.map (·.2)).sum = (triplesOf m.idx).length := by
+      rcases hw.mats with h' | h'
+      · exact absurd h' hm
+      · rw [hlen]; exact h'
+    obtain ⟨g', c', e, n, f, t, _, hc⟩ := steps_ranges_aux (mkCorner m.uv.isSome m.nrm.isSome vo to no) m.mats
+      (triplesOf m.idx) s (fun _ => hs0) hs hw.names hres
+    refine ⟨g', c', ?_, n, by simp [f, hf0], by simp [t, ht0, hlen], ?_⟩
+    · simp only [hm, ↓reduceIte, e]
+    · rw [hc, hm0]
+      simp [expMats, hm, closeMats]
+
+
+/-! #### the list of meshes -/
+
+/-- every mesh but the last has at least one triangle (an empty group in the middle is dropped by the
+    reader: known deviation `roundtrip_empty_mesh_not_last`) -/
+def NonemptyButLast : List (String × Mesh α) → Prop
+  | [] => True
+  | [_] => True
+  | p :: q :: r => p.2.idx ≠ [] ∧ NonemptyButLast (q :: r)
+
+def PoolsAll (pv pn : List (V3 α)) (pt : List (V2 α)) : Nat → Nat → Nat → List (String × Mesh α) → Prop
+  | _, _, _, [] => True
+  | vo, to, no, (_, m) :: rest =>
+    PoolsFor pv pn pt vo to no m ∧ PoolsAll pv pn pt (vo + optLen m.pos) (to + optLen m.uv) (no + optLen m.nrm) rest
+
+/-- name, face lines (as corner triples) and closed material ranges of a group -/
+def sumG (g : Group Corner α) : String × List (Corner × Corner × Corner) × List (String × Nat) :=
+  (g.name, g.ftoks, g.mats)
+
+/-- what the groups read back must be, mesh by mesh: the mesh's name; one face per index triple, in
+    order, corner `i ↦ (i+1+vo, i+1+to, i+1+no)` with THE MESH'S OWN offsets into the three pools;
+    its material ranges (or the carried material, see `expMats`) -/
+def expSum : Nat → Nat → Nat → Option String → List (String × Mesh α) →
+    List (String × List (Corner × Corner × Corner) × List (String × Nat))
+  | _, _, _, _, [] => []
+  | vo, to, no, carry, (name, m) :: rest =>
+    (name, cornerTriples (mkCorner m.uv.isSome m.nrm.isSome vo to no) (triplesOf m.idx), expMats carry m) ::
+      expSum (vo + optLen m.pos) (to + optLen m.uv) (no + optLen m.nrm) (lastMat m.mats carry) rest
+
+theorem steps_groups_aux (multi : Bool) : ∀ (rest : List (String × Mesh α)) (name : String) (m : Mesh α)
+    (s : RState Corner α) (vo to no : Nat),
+    WFMesh m → (∀ p ∈ rest, WFMesh p.2) → NonemptyButLast ((name, m) :: rest) → (rest ≠ [] → multi = true) →
+    PoolsAll s.pv s.pn s.pt vo to no ((name, m) :: rest) → Fresh s → s.cur.name = name →
+    ∃ s', steps pcId s (bodyLines vo to no m ++
+        groupLines multi (vo + optLen m.pos) (to + optLen m.uv) (no + optLen m.nrm) rest) = .ok s' ∧
+      (finish s').1.map sumG = s.done.map sumG ++ expSum vo to no s.inEffect ((name, m) :: rest) ∧
+      (finish s').2 = s.libs
+  | [], name, m, s, vo, to, no, hw, _, _, _, hp, hf, hn => by
+    obtain ⟨g', c', e, n, f, t, hc⟩ := steps_body_aux s vo to no m hw hp.1 hf
+    refine ⟨{ s with since := c', inEffect := lastMat m.mats s.inEffect, cur := g' }, ?_, ?_, rfl⟩
+    · simp only [groupLines, List.append_nil]; exact e
+    · simp [finish, sumG, expSum, n, f, hc, hn]
+  | (name', m') :: rest, name, m, s, vo, to, no, hw, hws, hnb, hmulti, hp, hf, hn => by
+    obtain ⟨g', c', e, n, f, t, hc⟩ := steps_body_aux s vo to no m hw hp.1 hf
+    have hmt : multi = true := hmulti (by simp)
+    subst hmt
+    have hne : m.idx ≠ [] := hnb.1
+    have hpos : m.idx.length / 3 ≠ 0 := by
+      have h3 := hw.len3
+      have : m.idx.length ≠ 0 := fun h => hne (List.eq_nil_of_length_eq_zero h)
+      omega
+    have htris : g'.tris ≠ [] := fun h => hpos (by rw [← t, h]; rfl)
+    -- the `g` line of the next mesh flushes this one
+    let s2 : RState Corner α :=
+      { s with since := 0, inEffect := lastMat m.mats s.inEffect,
+               done := s.done ++ [{ g' with mats := closeMats g'.mats c' }], cur := { name := name' } }
+    have e2 : step pcId { s with since := c', inEffect := lastMat m.mats s.inEffect, cur := g' } (.g name') = .ok s2 := by
+      simp only [step, htris, ne_eq, not_false_eq_true, ↓reduceIte, s2]
+    obtain ⟨s', e3, hfin, hlibs⟩ := steps_groups_aux true rest name' m' s2
+      (vo + optLen m.pos) (to + optLen m.uv) (no + optLen m.nrm)
+      (hws (name', m') (by simp)) (fun p hp' => hws p (by simp [hp'])) hnb.2
+      (fun _ => rfl) hp.2 ⟨rfl, rfl, rfl, rfl⟩ rfl
+    refine ⟨s', ?_, ?_, by rw [hlibs]⟩
+    · rw [steps_append_aux pcId _ _ _ _ e]
+      simp only [groupLines, gLine, Bool.true_or, ↓reduceIte, List.append_assoc, List.cons_append,
+        List.nil_append, steps, e2]
+      exact e3
+    · rw [hfin]
+      simp [s2, sumG, expSum, n, f, hc, hn]
+
+/-- the data section: every `v / vt / vn` line goes to its pool -/
+theorem steps_data_aux : ∀ (ms : List (String × Mesh α)) (s : RState Corner α),
+    steps pcId s (dataLines ms) = .ok { s with
+      pv := s.pv ++ ms.flatMap (fun p => optList p.2.pos),
+      pt := s.pt ++ ms.flatMap (fun p => optList p.2.uv),
+      pn := s.pn ++ ms.flatMap (fun p => optList p.2.nrm) }
+  | [], s => by simp [dataLines, steps]
+  | (name, m) :: rest, s => by
+    have hv : ∀ (l : List (V3 α)) (s : RState Corner α),
+        steps pcId s (l.map .v) = .ok { s with pv := s.pv ++ l } := by
+      intro l; induction l with
+      | nil => intro s; simp [steps]
+      | cons a l ih => intro s; simp [steps, step, ih]
+    have hn : ∀ (l : List (V3 α)) (s : RState Corner α),
+        steps pcId s (l.map .vn) = .ok { s with pn := s.pn ++ l } := by
+      intro l; induction l with
+      | nil => intro s; simp [steps]
+      | cons a l ih => intro s; simp [steps, step, ih]
+    have ht : ∀ (l : List (V2 α)) (s : RState Corner α),
+        steps pcId s (l.map .vt) = .ok { s with pt := s.pt ++ l } := by
+      intro l; induction l with
+      | nil => intro s; simp [steps]
+      | cons a l ih => intro s; simp [steps, step, ih]
+    simp only [dataLines, meshData, List.append_assoc]
+    rw [steps_append_aux pcId _ _ _ _ (hv (optList m.pos) s)]
+    rw [steps_append_aux pcId _ _ _ _ (ht (optList m.uv) _)]
+    rw [steps_append_aux pcId _ _ _ _ (hn (optList m.nrm) _)]
+    rw [steps_data_aux rest]
+    simp [List.flatMap_cons, List.append_assoc]
+
+
+end roundtrip
 
 /-! ### the pinned defect: one shared offset for v / vt / vn -/
 
